@@ -851,6 +851,67 @@ def c08(stream, scen=None):
     return wit
 
 
+def c08_gate(stream, scen=None):
+    """a part passes a decision gate only if the gate's predicate accepts the part AS IT IS when it is offered: whenever
+    the routing history of a single part grows by a gate in some event, the gate's predicate holds for the quality /
+    value the part had just before that event (pass-through devices do not change a part; callbacks of the receiving
+    device run after the gate has decided).  Also for a part that meets the same gate again (rework loops, a hand-over
+    that was refused behind the gate and is repeated later)."""
+    wit = []
+    pred = {}
+    di = 0
+    for l in scen or []:
+        if l[:2] == ['asset', 'dev']:
+            if l[2] == 'gate':
+                kv = dict(t.split('=', 1) for t in l[3:] if '=' in t)
+                pred[di] = kv.get('pred', 'always').split(':')
+            di += 1
+        elif l[:2] == ['asset', 'group']:
+            di += 2
+        elif l[0] in ('script', 'ext') and 'create' in l[1:3]:
+            break                   # device indices after a creation at run time are not tracked here
+    if not any(p[0] not in ('always',) for p in pred.values()):
+        return wit
+
+    def holds(pr, q, v):
+        if pr[0] == 'always':
+            return True
+        if pr[0] == 'never':
+            return False
+        x = q if pr[0][0] == 'q' else v
+        return x >= int(pr[1]) if pr[0].endswith('ge') else x < int(pr[1])
+    fs = frames(stream)
+    prev = None
+    for i, f in enumerate(fs):
+        if f.trigger[0] == 'abort':
+            return wit
+        if f.now is None or f.trigger[0] in ('ran', 'runbegin'):
+            continue
+        parts = parts_of(f.state)
+        if prev is not None:
+            old = parts_of(prev.state)
+            inside = {k for r in list(parts.values()) + list(old.values()) if r['kids'] for k in r['kids']}
+            for p, r in parts.items():
+                o = old.get(p)
+                if o is None or r['kids'] is not None or o['kids'] is not None or p in inside:
+                    continue        # (a batch is judged by the gate as a whole; its members only follow it)
+                h0, h1 = o['hist'], r['hist']
+                if len(h1) <= len(h0) or h1[:len(h0)] != h0:
+                    continue
+                try:
+                    q, v = int(o['q']), int(o['v'])
+                except ValueError:
+                    continue
+                for g in h1[len(h0):]:
+                    if g in pred and not holds(pred[g], q, v):
+                        wit.append(f'frame {i} (t={f.now}): part {p} (quality {q}, value {v}) passed gate {g} whose predicate '
+                                   f'{":".join(pred[g])} rejects it; history {h1[-6:]}')
+        prev = f
+        if len(wit) > 3:
+            break
+    return wit
+
+
 def c11(stream, scen=None):
     """a processor with required resources has a part in process only while holding exactly them;
     pool usage = sum of the processors' holdings; no idle operational processor holds resources when
@@ -1251,7 +1312,7 @@ def c06_source(stream, scen=None):
     return wit
 
 
-MONITORS.update({'C02': [c02], 'C03': [c03], 'C05': [c05], 'C08': [c08, c08_idle], 'C11': [c11], 'C13': [c13],
+MONITORS.update({'C02': [c02], 'C03': [c03], 'C05': [c05], 'C08': [c08, c08_idle, c08_gate], 'C11': [c11], 'C13': [c13],
                  'C15': [c15], 'C16': [c16], 'C17': [c17, c05, c17_hist]})
 
 
